@@ -19,7 +19,7 @@ import (
 
 func (r *rs) psyncReply() {
 	c := r.c
-	fn, wait := c.Func(pkgU, "", "SendPSyncContinue"), c.Func(pkgU, "", "waitRdbDump")
+	fn, wait := r.fn(pkgU, "", "SendPSyncContinue"), r.fn(pkgU, "", "waitRdbDump")
 	if fn == nil || wait == nil {
 		return
 	}
@@ -78,7 +78,7 @@ func (r *rs) psyncReply() {
 			}
 			seen[kw] = true
 			key := "SendPSyncContinue/keyword-" + kw
-			other := ast.Unparen(side[0])
+			other := ast.Unparen(flow.Resolve(info, fn.Decl.Body, ast.Unparen(side[0])))
 			call, isCall := other.(*ast.CallExpr)
 			f := (*types.Func)(nil)
 			if isCall {
@@ -243,7 +243,7 @@ func (r *rs) continueReturn(fn *core.Fn, g *cfgq.Graph, ret *ast.ReturnStmt, run
 
 func (r *rs) sendPSyncCmd() {
 	c := r.c
-	fn, spc, ris := c.Func(pkgS, "DbSyncer", "sendPSyncCmd"), c.Func(pkgU, "", "SendPSyncContinue"), c.Func(pkgS, "DbSyncer", "runIncrementalSync")
+	fn, spc, ris := r.fn(pkgS, "DbSyncer", "sendPSyncCmd"), r.fn(pkgU, "", "SendPSyncContinue"), r.fn(pkgS, "DbSyncer", "runIncrementalSync")
 	if fn == nil || spc == nil || ris == nil {
 		return
 	}
@@ -262,7 +262,7 @@ func (r *rs) sendPSyncCmd() {
 	}
 	conn := flow.Obj(info, nrs[0].Args[0])
 	br := assignedVar(info, fn.Decl.Body, nrs[0], 0)
-	pt, inGraph := g.Find(nrs[0])
+	pt, inGraph := flow.PointOf(g, nrs[0])
 	loops := inGraph && g.Path(cfgq.Query{From: pt, After: true, Target: isNode(pt.Node())}) != nil
 	c.Check("R2.reader", "sendPSyncCmd/one-reader", nrs[0].Pos(), len(nrs) == 1 && !loops,
 		fmt.Sprintf("exactly one buffered reader may be created over the source connection (found %d, in a loop: %v): a second reader starts behind whatever the first one has already buffered (the '$n' header or RDB bytes), which is lost", len(nrs), loops))
@@ -280,7 +280,7 @@ func (r *rs) sendPSyncCmd() {
 		c.Undecidedf("R5.use", "sendPSyncCmd/results", hs.Pos(), "the results of SendPSyncContinue are not bound to variables")
 		return
 	}
-	hp, _ := g.Find(hs)
+	hp, _ := flow.PointOf(g, hs)
 	gos := callsTo(info, fn.Decl.Body, ris.Obj, false)
 	if len(gos) < 2 {
 		c.Undecidedf("instances", "R2.reader", fn.Decl.Pos(), "expected the CONTINUE and the FULLRESYNC start of runIncrementalSync, found %d", len(gos))
@@ -300,7 +300,7 @@ func (r *rs) sendPSyncCmd() {
 	}
 	for i, gc := range gos {
 		key := fmt.Sprintf("sendPSyncCmd/start#%d", i+1)
-		gp, ok := g.Find(gc)
+		gp, ok := flow.PointOf(g, gc)
 		if !ok {
 			c.Undecidedf("R2.reader", key, gc.Pos(), "call not in the control-flow graph")
 			continue
@@ -347,7 +347,7 @@ func (r *rs) sendPSyncCmd() {
 
 func (r *rs) runIncrementalSync() {
 	c := r.c
-	fn, ioc, ppc := c.Func(pkgS, "DbSyncer", "runIncrementalSync"), c.Func(pkgU, "", "Iocopy"), c.Func(pkgS, "DbSyncer", "pSyncPipeCopy")
+	fn, ioc, ppc := r.fn(pkgS, "DbSyncer", "runIncrementalSync"), r.fn(pkgU, "", "Iocopy"), r.fn(pkgS, "DbSyncer", "pSyncPipeCopy")
 	if fn == nil || ioc == nil || ppc == nil {
 		return
 	}
@@ -355,7 +355,7 @@ func (r *rs) runIncrementalSync() {
 	g := cfgq.Of(c.Program, fn)
 	_, conn := param(fn, 0)
 	_, br := param(fn, 1)
-	r.boundedCaller("runIncrementalSync", fn, fn.Decl.Body, ioc, br)
+	r.boundedCaller("runIncrementalSync", fn, g, fn.Decl.Body, ioc, br)
 	setsConn, setsBr := assignsTo(info, conn), assignsTo(info, br)
 	copies := callsTo(info, fn.Decl.Body, ppc.Obj, false)
 	isCopy := flow.CallOn(g, func(call *ast.CallExpr) bool {
@@ -369,29 +369,64 @@ func (r *rs) runIncrementalSync() {
 	if len(copies) == 0 {
 		c.Undecidedf("R2.reader", "runIncrementalSync/stream-copy", fn.Decl.Pos(), "no pSyncPipeCopy call")
 	}
-	for i, nr := range newReaders(info, fn.Decl.Body, false) {
+	allReaders := newReaders(info, fn.Decl.Body, false)
+	for i, nr := range allReaders {
 		key := fmt.Sprintf("runIncrementalSync/new-reader#%d", i+1)
-		p, ok := g.Find(nr)
-		if !ok || !flow.IsObj(info, conn)(nr.Args[0]) || assignedVar(info, fn.Decl.Body, nr, 0) != br {
-			c.Undecidedf("R2.reader", key, nr.Pos(), "%s is not `br = bufio.NewReader*(c)`", c.Src(nr))
+		p, ok := flow.PointOf(g, nr)
+		src := flow.Obj(info, nr.Args[0]) // the connection variable this reader wraps (the parameter, or a helper's local)
+		if !ok || src == nil {
+			c.Undecidedf("R2.reader", key, nr.Pos(), "%s does not wrap a plain connection variable", c.Src(nr))
 			continue
 		}
-		w := g.Path(cfgq.Query{From: g.Entry(), Avoid: setsConn, Target: isNode(p.Node())})
+		setsSrc := assignsTo(info, src)
+		w := g.Path(cfgq.Query{From: g.Entry(), Avoid: setsSrc, Target: isNode(p.Node())})
 		c.Check("R2.reader", key+"/only-on-new-conn", nr.Pos(), w == nil, "a new buffered reader may be created only after the connection variable was replaced: a second reader over the original connection misses the bytes the first one has buffered", w...)
-		w2 := g.Path(cfgq.Query{From: p, After: true, Avoid: setsConn, Target: func(m ast.Node) bool {
-			return len(newReaders(info, m, false)) > 0
+		w2 := g.Path(cfgq.Query{From: p, After: true, Avoid: setsSrc, Target: func(m ast.Node) bool {
+			for _, o := range newReaders(info, m, false) {
+				if flow.Obj(info, o.Args[0]) == src {
+					return true
+				}
+			}
+			return false
 		}})
 		c.Check("R2.reader", key+"/once-per-conn", nr.Pos(), w2 == nil, "at most one buffered reader per connection", w2...)
 	}
 	for i, p := range g.Points(setsConn) {
+		key := fmt.Sprintf("runIncrementalSync/reconnect#%d/fresh-reader", i+1)
+		// `c, br, bw = c2, br2, bw2`: connection and reader replaced by one statement
+		if as, ok := p.Node().(*ast.AssignStmt); ok && setsBr(as) {
+			var ec, eb ast.Expr
+			if len(as.Lhs) == len(as.Rhs) {
+				for j, l := range as.Lhs {
+					if flow.IsObj(info, conn)(l) {
+						ec = as.Rhs[j]
+					}
+					if flow.IsObj(info, br)(l) {
+						eb = as.Rhs[j]
+					}
+				}
+			}
+			paired := false
+			if ec != nil && eb != nil {
+				if nr, isCall := ast.Unparen(flow.ValueOf(info, fn.Decl.Body, eb)).(*ast.CallExpr); isCall && len(newReaders(info, nr, false)) == 1 && newReaders(info, nr, false)[0] == nr {
+					paired = flow.Obj(info, nr.Args[0]) != nil && flow.Obj(info, nr.Args[0]) == flow.Obj(info, ec)
+				}
+			}
+			if paired {
+				c.Okf("R2.reader", key, as.Pos(), "the connection is replaced together with a reader created over the new connection")
+			} else {
+				c.Undecidedf("R2.reader", key, as.Pos(), "connection and reader are replaced by %s, whose reader cannot be traced to bufio.NewReader*(new connection)", c.Src(as))
+			}
+			continue
+		}
 		w := g.Path(cfgq.Query{From: p, After: true, Avoid: cfgq.Or(setsBr, setsConn), Target: isCopy})
-		c.Check("R2.reader", fmt.Sprintf("runIncrementalSync/reconnect#%d/fresh-reader", i+1), p.Node().Pos(), w == nil, "after the connection was replaced nothing may be copied through the old reader: it still holds (and would replay) bytes of the dead connection", w...)
+		c.Check("R2.reader", key, p.Node().Pos(), w == nil, "after the connection was replaced nothing may be copied through the old reader: it still holds (and would replay) bytes of the dead connection", w...)
 	}
 }
 
 func (r *rs) syncEntry() {
 	c := r.c
-	fn, rdb, cmd := c.Func(pkgS, "DbSyncer", "Sync"), c.Func(pkgS, "DbSyncer", "syncRDBFile"), c.Func(pkgS, "DbSyncer", "syncCommand")
+	fn, rdb, cmd := r.fn(pkgS, "DbSyncer", "Sync"), r.fn(pkgS, "DbSyncer", "syncRDBFile"), r.fn(pkgS, "DbSyncer", "syncCommand")
 	if fn == nil || rdb == nil || cmd == nil {
 		return
 	}
@@ -418,7 +453,7 @@ func (r *rs) syncEntry() {
 // rawConn: the raw connection leaves sendCmd/sendSyncCmd only once a non-zero size arrived.
 func (r *rs) rawConn(pkgPath, recv, name string) {
 	c := r.c
-	fn, osc := c.Func(pkgPath, recv, name), c.Func(pkgU, "", "OpenSyncConn")
+	fn, osc := r.fn(pkgPath, recv, name), r.fn(pkgU, "", "OpenSyncConn")
 	if fn == nil || osc == nil {
 		return
 	}
@@ -461,7 +496,7 @@ func (r *rs) rawConn(pkgPath, recv, name string) {
 // it returns, because a non-nil channel means that an RDB precedes the commands.
 func (r *rs) replyUsed() {
 	c := r.c
-	spc := c.Func(pkgU, "", "SendPSyncContinue")
+	spc := r.fn(pkgU, "", "SendPSyncContinue")
 	if spc == nil {
 		return
 	}
@@ -487,7 +522,12 @@ func (r *rs) replyUsed() {
 							return true
 						})
 					}
-					c.Check("R5.use", fd.Name.Name+"/wait-result-used", call.Pos(), used,
+					// the key names the role of the call, not the function that happens to contain it
+					role := "reconnect"
+					if fd.Name.Name == "sendPSyncCmd" {
+						role = "sendPSyncCmd"
+					}
+					c.Check("R5.use", role+"/wait-result-used", call.Pos(), used,
 						"the wait channel returned by SendPSyncContinue is discarded: when the source answers this PSYNC with +FULLRESYNC, the header goroutine started on the reader and the stream copy that follows read the same reader concurrently, so '$n', the RDB bytes and the commands are split between them and the command parser is fed RDB bytes (the announced run id/offset are ignored as well)")
 				}
 			}
